@@ -25,7 +25,9 @@ STUBS_E1 = [
     'std::terminate / pure virtual / llvm.trap / unreachable -> failure',
     'std::atomic wait/notify -> shadow <bits/atomic_wait.h>: waiting on an unchanged value = "blocks forever" failure',
     'pthread_mutex_lock/unlock -> lock word with double-lock / unlock-of-free failures (single modelled thread)',
-    'atomics executed sequentially (one thread); thread_local = global',
+    'atomics executed sequentially (one modelled thread; C11: cooperative thread table); thread_local = global (C11: one copy per modelled thread)',
+    'a second thread exists only as a complete operation placed by the harness: in front of the k-th mutex acquisition (vf_inject_arm), in front of the k-th '
+    'atomic instruction (vf_ainject_arm), or when the thread under test blocks in an atomic wait (vf_wait_arm); units that use them say so in skeleton_space',
     'every load/store guarded by assert-then-assume __CPROVER_rw_ok (invalid/freed/out-of-bounds access = failure)',
     'clang-14 -O1 IR of the real headers is what is encoded; counterexamples are replayed on a g++ -fsanitize=address,undefined build',
 ]
@@ -228,6 +230,39 @@ def replay_e1(rep, tu=None, workdir=None):
     return False, 'native run exit code %d: %s' % (rc, se[-200:])
 
 
+def thorough_units(spec, units, seed):
+    """The thorough tier decides every vector / scenario of the quick tier plus the deeper plan. Where the deeper plan of a property has more skeleton
+    vectors than the budget (VERIF_VECTOR_BUDGET, default 800 per property; 0 = no limit), a deterministic, evenly spread selection of it is decided
+    (every vector is still one solver query over all data values); the evidence states the size of the space and of the selection. VERIF_SEED shifts the selection."""
+    budget = int(os.environ.get('VERIF_VECTOR_BUDGET', '800') or 0)
+    e1u = [u for u in units if u.get('engine', 'e1') == 'e1']
+    tot = sum(len(u['vectors']) for u in e1u)
+    if budget and tot > budget:
+        for u in e1u:
+            M = len(u['vectors'])
+            keep = min(M, max(30, M * budget // tot))
+            if keep < M:
+                frac = (seed % 97) / 97.0
+                idx = sorted(set(min(M - 1, int((i + frac) * M / keep)) for i in range(keep)))
+                u['vectors'] = [u['vectors'][i] for i in idx]
+                u['space'] = u.get('space', '') + ' -- SELECTION: %d of the %d vectors of this space are decided in this run (evenly spread over the enumeration order, offset from VERIF_SEED=%d; VERIF_VECTOR_BUDGET=0 decides all)' % (len(idx), M, seed)
+                u['exhaustive'] = False
+    # every quick-tier vector / scenario is part of the thorough tier
+    byname = {u.get('name', u.get('entry')): u for u in units}
+    for q in spec.plan('quick'):
+        n = q.get('name', q.get('entry'))
+        t = byname.get(n)
+        if t is None:
+            units.append(q); continue
+        key = 'vectors' if q.get('engine', 'e1') == 'e1' else 'scenarios'
+        have = set(json.dumps(v, sort_keys=True) for v in t.get(key, []))
+        add = [v for v in q.get(key, []) if json.dumps(v, sort_keys=True) not in have]
+        if add and (q.get('entry') != t.get('entry') or q.get('defines') != t.get('defines') or q.get('tu') != t.get('tu') or q.get('unwind', 0) > t.get('unwind', 0)):
+            q = dict(q); q['name'] = n + '_quick'; units.append(q); continue
+        t[key] = list(t.get(key, [])) + add
+    return units
+
+
 def main():
     ap = argparse.ArgumentParser()
     ap.add_argument('prop')
@@ -259,6 +294,8 @@ def main():
     try:
         spec = load_spec(prop)
         units = spec.plan(a.tier)
+        if a.tier == 'thorough':
+            units = thorough_units(spec, units, seed)
         if a.only:
             units = [u for u in units if a.only in u.get('name', u.get('entry', ''))]
             out.cov['exhaustive'] = False
